@@ -17,8 +17,12 @@ def jobs_for(tier, rng):
         ns, na = m["ns"], m["na"]
         if k % 3 == 0:
             m["render"]["has_init_policy"] = True
+            m["render"]["init_policy_on_instance"] = rng.random() < 0.4
             m["pol0"] = [rng.randrange(na) for _ in range(ns)]
         g = rng.choice([[1, 4], [1, 2], [1, 2], [3, 4]])
+        if rng.random() < 0.2:
+            gen.fix_dups(m)
+            gen.add_rare(rng, m)              # a rare catastrophic event (2^-127 x 2^127), see tabular.make_problem
         job = {"mdp": m, "kind": "PI", "gamma": g, "eps": [rng.choice([1, 1, 3]), rng.choice([0, 1, 2, 3])],
                "test": rng.choice(["span", "max_diff"]), "reset": rng.random() < 0.4,
                "max_eval_iter": rng.choice([1, 2, 5, 50]), "mbs": rng.choice([2, 3, 7, 64, 1024]),
